@@ -35,8 +35,8 @@ func checkC14(w *Worker) {
 			var f absFile
 			k := 0
 			if maxRec == 0 {
-				// large log: 200 days x 4 items, crossing the input and output buffers many times
-				for r := 0; r < 200; r++ {
+				// large log: 400 days x 4 items, crossing the input and output buffers many times
+				for r := 0; r < 400; r++ { // more than a year: the same day-of-year occurs twice
 					d := dates[0].AddDate(0, 0, r)
 					if r == 7 {
 						d = dates[0] // the period's day occurs twice
